@@ -227,7 +227,7 @@ func MutateHost(t *rapid.T, host string) string {
 		}
 	case 7:
 		if host != "" {
-			return host + ":8080"
+			return host + Pick(t, []string{":8080", ":8080", ":80", ":10443", ":65535", ":0"}, "port")
 		}
 	case 8:
 		if host != "" {
